@@ -5,7 +5,7 @@ namespace Driver.Clean
 /-! requests `{"model":"clean", "tasks":[{"label":s,"task_dep":[n],"setup":[n],"subtask_of":n|null,"targets":[s],
       "kind":"none"|"targets"|"actions",
       "actions":[{"type":"aware"|"plain"|"cmd","eff":null|["rm",s]|["mk",s]}]}], "pos":[s], "defaults":null|[s], "cleandep":b, "cleanall":b,
-      "dryrun":b, "forget":b, "files":[s], "dirs":[s], "db":[n],
+      "dryrun":b, "forget":b, "files":[s], "dirs":[s], "db":[n], "links":[[s,s]],
       "obs": {"order":[n], "files":[s], "dirs":[s], "db":[n]} (optional: what the implementation did)}`
     answer: `{"outcome":"ok"|"not-a-task"|"key-error", "order":[n], "events":[[tag,t,...]], "files","dirs","db",
       "oof":b, "wf":b, "acyclic":b, "with_deps":b, "base":[n], "monitor":{"order":b,"effects":b}}`
@@ -49,7 +49,10 @@ def parseReq (j : Json) : Req :=
     dryrun := jbool j "dryrun", forget := jbool j "forget" }
 
 def parseWorld (j : Json) : World :=
-  { files := (jstrs j "files").map chars, dirs := (jstrs j "dirs").map chars, db := jnats j "db" }
+  { files := (jstrs j "files").map chars, dirs := (jstrs j "dirs").map chars, db := jnats j "db",
+    links := (jarr j "links").map fun l => match asArr l with
+      | [a, b] => (chars (asStr a), chars (asStr b))
+      | _ => ([], []) }
 
 def sortStrs (xs : List String) : List String := (xs.toArray.qsort (· < ·)).toList
 def sortNats (xs : List Nat) : List Nat := (xs.toArray.qsort (· < ·)).toList
@@ -61,6 +64,7 @@ def evJson : Ev → Json
   | .rmFile t p => mkArr [Json.str "rm-file", toJson t, Json.str (str p)]
   | .rmDir t p => mkArr [Json.str "rm-dir", toJson t, Json.str (str p)]
   | .notEmpty t p => mkArr [Json.str "not-empty", toJson t, Json.str (str p)]
+  | .crash t p => mkArr [Json.str "crash", toJson t, Json.str (str p)]
 
 def handle (j : Json) : Json :=
   let tbl : Table := (jarr j "tasks").map parseTask
@@ -84,6 +88,8 @@ def handle (j : Json) : Json :=
       ("files", ofStrs (sortStrs (res.world.files.map str))),
       ("dirs", ofStrs (sortStrs (res.world.dirs.map str))),
       ("db", ofNats (sortNats res.world.db)),
+      ("links", ofStrs (sortStrs (res.world.links.map fun l => str l.1))),
+      ("crashed", Json.bool res.crashed),
       ("oof", Json.bool res.oof), ("base", ofNats base)] ++ common ++ mon)
   | .error .notATask, _ => Json.mkObj ([("outcome", Json.str "not-a-task")] ++ common)
   | .error .keyError, _ => Json.mkObj ([("outcome", Json.str "key-error")] ++ common)
